@@ -1,7 +1,7 @@
 (* Model of tlexport/main.py: run() as a left fold over the capture, then per-session decryption and the output file. *)
 From Coq Require Import ZArith List Bool.
 From Coq Require String.
-Require Import PyLib SuiteTypes SuiteParser Crypto KeySchedule Packet Reassembly Decryptor TlsSession OutputBuilder Frames Checksum PcapngWriter.
+Require Import PyLib SuiteTypes SuiteParser Crypto KeySchedule QuicKeys Packet Reassembly Decryptor TlsSession OutputBuilder Frames Checksum PcapngWriter QuicFrames QuicDissector QuicSession.
 Import ListNotations.
 Open Scope Z_scope.
 
@@ -90,4 +90,98 @@ Fixpoint decrypt_all (keylog : list secret) (ss : list tsession) : result (list 
 Definition run_tls (keylog0 : list secret) (items : list item) : result (list (Z * bytes)) :=
   do m <- fold_left read_item_tls items (Ok {| m_sessions := []; m_keylog := keylog0 |});
   decrypt_all (m_keylog m) (m_sessions m).
+
+(* ---------------- QUIC ---------------- *)
+Variable ftable : list (list Z * fclass).
+
+(* bytes ordering used to make the connection-ID scan deterministic: longer IDs first, then lexicographic *)
+Fixpoint bytes_ltb (a b : bytes) : bool :=
+  match a, b with
+  | [], [] => false | [], _ :: _ => true | _ :: _, [] => false
+  | x :: a', y :: b' => (x <? y) || ((x =? y) && bytes_ltb a' b')
+  end.
+Definition cid_before (a b : bytes) : bool := (len b <? len a) || ((len a =? len b) && bytes_ltb a b).
+Fixpoint insert_cid (c : bytes) (l : list bytes) : list bytes :=
+  match l with [] => [c] | x :: r => if cid_before c x then c :: x :: r else x :: insert_cid c r end.
+Definition scan_order (cids : list bytes) : list bytes :=
+  fold_left (fun acc c => insert_cid c acc) (filter (fun c => negb (len c =? 0)) cids) [].
+Definition cid_union (a b : list bytes) : list bytes := fold_left (fun acc c => set_add c acc) b a.
+
+(* handle_quic_packet: sessions are tried in order; the first that recognises the datagram takes it *)
+Fixpoint dispatch_quic (keylog : list secret) (ss : list qsession) (p : packet) (long : bool) (dcid : bytes) (ver : quic_version)
+  : result (option (list qsession)) :=
+  match ss with
+  | [] => Ok None
+  | s :: r =>
+      let by_cid :=
+        if long then (if mem_bytes dcid (qs_client_cids s) || mem_bytes dcid (qs_server_cids s) then Some dcid else None)
+        else find (fun cid => is_prefix cid (slice_from (p_data p) 1)) (scan_order (cid_union (qs_client_cids s) (qs_server_cids s))) in
+      match by_cid with
+      | Some cid => do s' <- quic_handle_packet C keylog ftable s p cid ver; Ok (Some (s' :: r))
+      | None =>
+          if matches_session_dgram s p then do s' <- quic_handle_packet C keylog ftable s p dcid ver; Ok (Some (s' :: r))
+          else do r' <- dispatch_quic keylog r p long dcid ver; Ok (match r' with Some l => Some (s :: l) | None => None end)
+      end
+  end.
+
+Definition handle_quic_packet (keylog : list secret) (ss : list qsession) (p : packet) : result (list qsession) :=
+  let d := p_data p in
+  do long <- get_header_type_long d;
+  if long && (len d <? 6) then Ok ss else          (* a long header needs at least first byte, version and DCID length *)
+  let dcid := if long then slice d 6 (6 + nth 5 d 0) else [] in
+  let vnum := from_be (slice d 1 5) in
+  let ver := if long then (if vnum =? 1 then QV1 else if vnum =? 2 then QV2 else QUnknown) else QUnknown in
+  do r <- dispatch_quic keylog ss p long dcid ver;
+  match r with
+  | Some ss' => Ok ss'
+  | None => if long then do s' <- quic_handle_packet C keylog ftable (new_qsession p (opt_server_ports o)) p dcid ver; Ok (ss ++ [s'])
+            else Ok ss
+  end.
+
+Record gstate := { g_sessions : list tsession; g_quic : list qsession; g_keylog : list secret }.
+
+Definition read_item (st : result gstate) (it : item) : result gstate :=
+  do g <- st;
+  match it with
+  | IDsb ks => Ok {| g_sessions := g_sessions g; g_quic := g_quic g; g_keylog := g_keylog g ++ ks |}
+  | IPacket p =>
+      match p_kind p with
+      | L4Tcp => do m <- step_tcp {| m_sessions := g_sessions g; m_keylog := g_keylog g |} p;
+                 Ok {| g_sessions := m_sessions m; g_quic := g_quic g; g_keylog := g_keylog g |}
+      | L4Udp =>
+          if len (p_data p) =? 0 then Ok g else
+          do ok <- (if opt_checksum o then calculate_checksum_udp (l4pkt_of p) else Ok true);
+          if negb ok then Ok g else
+          if (Z.shiftr (Z.land (nth 0 (p_data p) 0) 64) 6 =? 1) || opt_greasy o then
+            do qs <- handle_quic_packet (g_keylog g) (g_quic g) p;
+            Ok {| g_sessions := g_sessions g; g_quic := qs; g_keylog := g_keylog g |}
+          else Ok g
+      | L4Other => Ok g
+      end
+  end.
+
+Definition quic_endpoints (s : qsession) : endpoints :=
+  {| e_v6 := qs_ipv6 s; e_server_ip := qs_server_ip s; e_client_ip := qs_client_ip s;
+     e_server_mac := qs_server_mac s; e_client_mac := qs_client_mac s;
+     e_server_port := out_server_port (qs_server_port s) (opt_portmap o) (opt_keep_ports o); e_client_port := qs_client_port s |}.
+
+Fixpoint serialise_quic (e : endpoints) (ds : list odgram) : result (list (Z * bytes)) :=
+  match ds with
+  | [] => Ok []
+  | d :: r => do f <- udp_frame e (od_isserver d) (od_payload d); do rest <- serialise_quic e r; Ok ((od_ts d, f) :: rest)
+  end.
+
+Fixpoint build_all_quic (ss : list qsession) : result (list (Z * bytes)) :=
+  match ss with
+  | [] => Ok []
+  | s :: r => do fr <- serialise_quic (quic_endpoints s) (quic_build (opt_metadata o) (qs_output s));
+              do rest <- build_all_quic r; Ok (fr ++ rest)
+  end.
+
+(* run(): read everything, decrypt the TLS sessions, then append what the QUIC sessions collected *)
+Definition run (keylog0 : list secret) (items : list item) : result (list (Z * bytes)) :=
+  do g <- fold_left read_item items (Ok {| g_sessions := []; g_quic := []; g_keylog := keylog0 |});
+  do tls <- decrypt_all (g_keylog g) (g_sessions g);
+  do quic <- build_all_quic (g_quic g);
+  Ok (tls ++ quic).
 End Run.
